@@ -59,7 +59,9 @@ def make_node(n):
     if kind == 'metric':
         t = n.get('type')
         type_ = getattr(ac.MetricType, t) if t else None
-        return ac.MetricNode(n['id'], direction=n.get('dir'), ref=n.get('ref'), type_=type_)
+        # (several metric nodes may share their display name; they are then told apart by idx: "<name>_<idx>")
+        return ac.MetricNode(n.get('label', n['id']), direction=n.get('dir'), ref=n.get('ref'), idx=n.get('idx'),
+                             type_=type_)
     raise ValueError(kind)
 
 
